@@ -61,18 +61,20 @@ func (c Cfg) options(dir string) kv.Options {
 
 // World is one database instance under exploration together with its reference model.
 type World struct {
-	Cfg    Cfg
-	Root   string // private scratch directory (removed by Destroy)
-	Dir    string // data directory
-	DB     *kv.DB
-	Model  map[string]string
-	Keys   []string // key universe (observed on every step)
-	Step   int
-	Dead   bool // a panic happened; the instance is abandoned
-	Errs   int  // mutation calls that failed unexpectedly (modelled as no effect)
-	Cnt    map[string]int64
-	Hist   map[string]map[string]bool // every value ever written per key (C12 etc.)
-	seqDir int
+	Cfg  Cfg
+	Root string // private scratch directory (removed by Destroy)
+	Dir  string // data directory
+	// DirSuffix: how the caller spells the directory in Options.DirPath ("" or a trailing separator)
+	DirSuffix string
+	DB        *kv.DB
+	Model     map[string]string
+	Keys      []string // key universe (observed on every step)
+	Step      int
+	Dead      bool // a panic happened; the instance is abandoned
+	Errs      int  // mutation calls that failed unexpectedly (modelled as no effect)
+	Cnt       map[string]int64
+	Hist      map[string]map[string]bool // every value ever written per key (C12 etc.)
+	seqDir    int
 
 	// Adversarial caller (C14/C15): one key buffer and one value buffer are reused for every call and
 	// poisoned after each return; Alias records the first canary failure.
@@ -167,7 +169,7 @@ func (w *World) OpenWith(c Cfg) error {
 	var db *kv.DB
 	err := w.guard(func() error {
 		var e error
-		db, e = kv.Open(c.options(w.Dir))
+		db, e = kv.Open(c.options(w.Dir + w.DirSuffix))
 		return e
 	})
 	if err == nil {
@@ -661,6 +663,14 @@ func (w *World) Apply(op Op) ApplyResult {
 			w.Errs++
 		}
 		return ApplyResult{Err: err}
+	case "fill": // Arg puts with value class VC, alternating over the key universe (many data files in one step)
+		for i := 0; i < op.Arg; i++ {
+			ar := w.Apply(Op{K: "put", Key: w.Keys[i%len(w.Keys)], VC: op.VC})
+			if ar.Err != nil || w.Dead {
+				return ar
+			}
+		}
+		return ApplyResult{}
 	case "sync":
 		return ApplyResult{Err: w.guard(func() error { return w.DB.Sync() })}
 	case "merge":
@@ -678,6 +688,19 @@ func (w *World) Apply(op Op) ApplyResult {
 		err := w.Open()
 		if err != nil {
 			return ApplyResult{Err: err, Clause: "open-error", Detail: "Open after clean Close: " + panicDetail(err)}
+		}
+		return ApplyResult{}
+	case "restartslash": // clean restart under the other spelling of the same directory (with / without a trailing separator)
+		if err := w.Close(); err != nil {
+			return ApplyResult{Err: err, Clause: "close-error", Detail: "Close: " + panicDetail(err)}
+		}
+		if w.DirSuffix == "" {
+			w.DirSuffix = string(filepath.Separator)
+		} else {
+			w.DirSuffix = ""
+		}
+		if err := w.Open(); err != nil {
+			return ApplyResult{Err: err, Clause: "open-error", Detail: fmt.Sprintf("Open(DirPath %q) after clean Close: %s", "db"+w.DirSuffix, panicDetail(err))}
 		}
 		return ApplyResult{}
 	case "restartfs": // clean restart that reopens the directory with another DataFileSize (arg)
